@@ -317,7 +317,7 @@ class Interp:
         elif k == "IfStmt":
             kids = [x for x in s.c if x is not None]
             v = self.rv(self.ev(kids[0], env, fn, depth), env)
-            if isinstance(v, int) or isinstance(v, Ptr):
+            if isinstance(v, (int, Ptr, FuncRef)):
                 c = (v != 0) if isinstance(v, int) else True
             else:
                 # unknown condition: if both arms leave the cursor state identical, do not fork
@@ -498,14 +498,14 @@ class Interp:
         v = self.ev(e, env, fn, depth)
         if isinstance(v, int):
             return v != 0
-        if isinstance(v, Ptr):
+        if isinstance(v, (Ptr, FuncRef)):
             return True
         return self.decide(e)
 
     # ---- const file-scope objects (lookup tables): materialised from their initialisers
     def sizeof(self, t):
         t = clean_type(t or "").replace("struct ", "").strip()
-        if t.endswith("*") or "(*)" in t:
+        if t.endswith("*") or "(*)" in t or t in self.__dict__.get("_fnptr_types", ()):
             return 8
         m = re.match(r"^(.*?)\[(\d+)\](.*)$", t)
         if m:
@@ -536,7 +536,18 @@ class Interp:
         base = "g:" + name
         size = self.sizeof(g["t"])
         if not size:
-            return None
+            # an array of a typedef'd function-pointer type: recognised by what initialises it
+            m0 = re.match(r"^(.*?)\[(\d+)\](.*)$", clean_type(g["t"]))
+            init = g.get("init")
+            kids = [x for x in init.c if x is not None] if init is not None and init.strip().k == "InitListExpr" else []
+            isfn = [x for x in kids if x.strip_casts() is not None and x.strip_casts().k == "DeclRefExpr" and x.strip_casts().name in self.P.by_name]
+            if m0 and not m0.group(3) and isfn and all(
+                    (x.strip_casts().k == "DeclRefExpr" and x.strip_casts().name in self.P.by_name) or x.cv == 0 or
+                    (x.strip_casts() is not None and x.strip_casts().cv == 0) or x.k == "ImplicitValueInitExpr" for x in kids):
+                self.__dict__.setdefault("_fnptr_types", set()).add(m0.group(1).strip())
+                size = int(m0.group(2)) * 8
+            else:
+                return None
         if (base, "filled") not in self.heap:
             self.heap[(base, "filled")] = 1
             self._fill(base, 0, g["t"], g["init"], fn)
@@ -862,7 +873,7 @@ class Interp:
             return U
         v = self.rv(self.ev(e.c[0], env, fn, depth), env)
         if not isinstance(v, int):
-            if op == "!" and isinstance(v, Ptr):
+            if op == "!" and isinstance(v, (Ptr, FuncRef)):
                 return 0
             return U
         if op == "-":
@@ -968,8 +979,10 @@ class Interp:
             return U
         if isinstance(a, Ptr) and op in ("+", "-") and not isinstance(b, int):
             return Ptr(a.base, U, a.esz)
-        if isinstance(a, Ptr) and isinstance(b, int) and op in ("==", "!=") and b == 0:
+        if isinstance(a, (Ptr, FuncRef)) and isinstance(b, int) and op in ("==", "!=") and b == 0:
             return int(op == "!=")
+        if isinstance(a, FuncRef) and isinstance(b, FuncRef) and op in ("==", "!="):
+            return int((a == b) == (op == "=="))
         if not isinstance(a, int) or not isinstance(b, int):
             # partial knowledge: x & 0 etc. are not worth modelling
             return U
